@@ -4,7 +4,7 @@ from decimal import Decimal
 from .. import common, gen, parsing
 
 LEVEL = "proof"
-EXTRA_LEAN_MODULES = ["Luqum.Props.C03b", "Luqum.Props.C03c", "Luqum.Props.C03d", "Luqum.Props.GenGlue"]
+EXTRA_LEAN_MODULES = ["Luqum.Props.C03b", "Luqum.Props.C03c", "Luqum.Props.C03d", "Luqum.Props.GenGlue", "Luqum.Props.GenActions"]
 RULE = ("grammar-directed token sequences with random layouts; three-way comparison implementation / LR model "
         "over the generated tables / independent precedence-climbing specification (python); every accepted "
         "query is re-laid-out twice (blank between all tokens; other separator runs) and must give an equal "
